@@ -174,17 +174,27 @@ async fn execute_multi_command_pipeline<S: Runtime + 'static>(
     let mut pids = Vec::new();
     while let Some(command) = commands.next() {
         let has_next = commands.len() > 0; // TODO ExactSizeIterator::is_empty
-        shift_or_fail(env, &mut pipes, has_next).await?;
+        if let Break(divert) = shift_or_fail(env, &mut pipes, has_next).await {
+            pipes.close_all(env);
+            return Break(divert);
+        }
 
-        let pipes = pipes;
+        let pipes_for_command = pipes;
         let start_result = Config::new()
             .start(env, async move |env, _job_control| {
+                let pipes = pipes_for_command;
                 let result = connect_pipe_and_execute_command(env, pipes, command).await;
                 env.apply_result(result);
                 run_exit_trap(env).await;
             })
             .await;
-        pids.push(pid_or_fail(env, start_result).await?);
+        match pid_or_fail(env, start_result).await {
+            Continue(pid) => pids.push(pid),
+            Break(divert) => {
+                pipes.close_all(env);
+                return Break(divert);
+            }
+        }
     }
 
     shift_or_fail(env, &mut pipes, false).await?;
@@ -303,6 +313,20 @@ impl PipeSet {
         }
 
         Ok(())
+    }
+
+    /// Closes all the FDs in this pipe set.
+    ///
+    /// This function is for the shell process that abandons the pipeline
+    /// because it cannot open a pipe or start a command.
+    fn close_all<S: Close>(&mut self, env: &mut Env<S>) {
+        if let Some(fd) = self.read_previous.take() {
+            let _ = env.system.close(fd);
+        }
+        if let Some((reader, writer)) = self.next.take() {
+            let _ = env.system.close(reader);
+            let _ = env.system.close(writer);
+        }
     }
 
     /// Moves the pipe FDs to stdin/stdout and closes the FDs that are no longer
@@ -455,6 +479,46 @@ mod tests {
             assert_eq!(result, Continue(()));
             assert_eq!(env.exit_status, ExitStatus(7));
             assert_stdout(&state, |stdout| assert_eq!(stdout, "trapped\n"));
+        });
+    }
+
+    #[test]
+    fn multi_command_pipeline_leaves_no_fd_open_when_pipe_cannot_be_opened() {
+        use yash_env::system::resource::{LimitPair, Resource, SetRlimit as _};
+
+        in_virtual_system(|mut env, state| async move {
+            env.builtins.insert("return", return_builtin());
+            let fds_before: Vec<Fd> = state.borrow().processes[&env.main_pid]
+                .fds()
+                .keys()
+                .copied()
+                .collect();
+            // The first pipe can be opened, the second cannot.
+            let limit = fds_before.len() as u64 + 2;
+            env.system
+                .setrlimit(
+                    Resource::NOFILE,
+                    LimitPair {
+                        soft: limit,
+                        hard: limit,
+                    },
+                )
+                .unwrap();
+
+            let pipeline: syntax::Pipeline =
+                "return -n 0 | return -n 0 | return -n 0".parse().unwrap();
+            let result = pipeline.execute(&mut env).await;
+            assert_eq!(
+                result,
+                Break(Divert::Interrupt(Some(ExitStatus::NOEXEC)))
+            );
+
+            let fds_after: Vec<Fd> = state.borrow().processes[&env.main_pid]
+                .fds()
+                .keys()
+                .copied()
+                .collect();
+            assert_eq!(fds_after, fds_before);
         });
     }
 
